@@ -638,7 +638,7 @@ func c10FlattenFlag(c *Ctx) {
 			continue
 		}
 		for _, ec := range condsDominating(ci.Block()) {
-			if call, ok := ec.Cond.(*ssa.Call); ok && !ec.Val && staticCallee(call) != nil && staticCallee(call).Name() == "isNil" && sameValue(call.Call.Args[0], ci.Call.Args[1]) {
+			if call, ok := ec.Cond.(*ssa.Call); ok && !ec.Val && staticCallee(call) != nil && fnName(staticCallee(call)) == "isNil" && sameValue(call.Call.Args[0], ci.Call.Args[1]) {
 				okLeaf = true
 			}
 		}
@@ -772,7 +772,7 @@ func c10Unset(c *Ctx) {
 		for _, r := range returnsOf(sub) {
 			if call, ok := retVals(r)[0].(*ssa.Call); ok && calleeFullName(call) == "reflect.Zero" {
 				for _, ec := range condsDominating(r.Block()) {
-					if cc, ok := ec.Cond.(*ssa.Call); ok && ec.Val && (calleeFullName(cc) == "(reflect.Value).IsNil" || (staticCallee(cc) != nil && staticCallee(cc).Name() == "isNil")) {
+					if cc, ok := ec.Cond.(*ssa.Call); ok && ec.Val && (calleeFullName(cc) == "(reflect.Value).IsNil" || (staticCallee(cc) != nil && fnName(staticCallee(cc)) == "isNil")) {
 						okS = true
 					}
 				}
@@ -861,7 +861,7 @@ func c10ZeroOnlyUnset(c *Ctx) {
 			case "(reflect.Value).IsNil", "(reflect.Value).IsZero":
 				return true
 			}
-			if callee := staticCallee(x); callee != nil && w.inRepo(callee) && (callee.Name() == "isNil" || callee.Name() == "aliasUnset") {
+			if callee := staticCallee(x); callee != nil && w.inRepo(callee) && (fnName(callee) == "isNil" || fnName(callee) == "aliasUnset") {
 				return true
 			}
 		case *ssa.BinOp:
@@ -894,7 +894,7 @@ func c10ZeroOnlyUnset(c *Ctx) {
 		case *ssa.Extract:
 			// the all-fields-nil flag returned by the anonymous-flatten helper
 			if call, ok := x.Tuple.(*ssa.Call); ok && ec.Val && x.Index == 1 {
-				if callee := staticCallee(call); callee != nil && callee.Name() == "unmangleStruct" {
+				if callee := staticCallee(call); callee != nil && fnName(callee) == "unmangleStruct" {
 					return true
 				}
 			}
